@@ -709,6 +709,10 @@ func (m *Machine) fmtOperand(fr *frame, spec string, verb byte, arg value) value
 		if verb == 's' || verb == 'v' {
 			return x
 		}
+		if verb == 'q' {
+			m.note("%q of a symbolic string rendered without escaping")
+			return strConcat(strConcat("\"", x), "\"")
+		}
 		panic(unsupported{"Sprintf verb %" + string(verb) + " on a symbolic string"})
 	case *Sym:
 		if x.t.sort.K == SBool {
